@@ -451,6 +451,10 @@ class VRec(V):
 class VDRec(V):
     """value of a dict-shaped record type (immutable value semantics, like VRec)"""
 
+    # `owner` = (env, name) of the only local that refers to this freshly copied dict (`x = dict(rec)`): item stores
+    # through that name are modelled as a functional update + rebinding; any other store is unsupported
+    owner = None
+
     def __init__(self, e, t):
         self.e = e
         self.t = t
@@ -721,6 +725,7 @@ def unwrap(v, t):
         return t.dt.mk(z3.K(t.k.sort(), z3.BoolVal(False)), z3.K(t.k.sort(), dflt), z3.IntVal(0))
     if isinstance(t, TDRec):
         if isinstance(v, VDRec) and v.t == t:
+            v.owner = None      # the dict object is now shared with a container: no more in-place updates modelled
             return v.e
         if isinstance(v, VDictRec):
             return drec_of_literal(v, t)
